@@ -68,7 +68,7 @@ CHECKS = {
             "checked by TLC; every (frame, header-block state) edge serialized independently and read by the real Framer; every write vector byte-compared and read back",
             "All frame types x stream-id classes x length/padding/flag classes x HEADERS/CONTINUATION states are enumerated at two read limits; the real outcome must be in the "
             "RFC-permitted set with the exact error code and scope; every frame is also truncated at every offset; all Write* boundary parameters round-trip byte-exactly.",
-            "Harness serializer trusted; random bit flips are sampled exploration; header-block validity is C13's."),
+            "Harness serializer trusted; random bit flips are sampled exploration. Header blocks through ReadMetaHeaders are replayed from H2Meta.tla (every history of 4 / 5 blocks: own judgement per block, dynamic table continuity); parsed field values of every accepted frame are compared with what was serialized."),
     'C10': ("ProxyServer.tla (connection lifecycle with client aborts anywhere and panics in user callbacks; PanicConfined under fairness) checked by TLC; "
             "panics injected into GetCertificate / ConnState(h2) / ConnState(h1) against the real server in a child process; abusive client scripts "
             "(garbage, plain HTTP, aborts at random byte offsets, resets, stalls, server-side I/O errors at the k-th Read/Write) in-process with their hook traces validated by TLC; "
@@ -119,7 +119,7 @@ CHECKS = {
             "TLC decides send safety incl. negative windows, overflow errors, the conservation law, the batching bound and agreement with the peer's ledger on the model; on the code "
             "every DATA frame of every recorded connection must fit the ledger, queued data must drain, provoked overflows/overruns must draw FLOW_CONTROL_ERROR and honest peers none, "
             "returned credit may never exceed bytes received and must be within 4096 of them at quiescence.",
-            "Client ledger = upper bound (increases at send, decreases at ack); the client transport is not driven; receiver scenarios include a handler that closed the body (discarded, heavily padded DATA must be refunded at once); D16 (over-returned connection credit after a client RST mid-body) is reported as KNOWN-FINDING."),
+            "Client ledger = upper bound (increases at send, decreases at ack); the fork's client Transport is driven as a sender of request bodies against a raw-frame peer (same ledger, incl. MAX_FRAME_SIZE changes; a rejection must repeat in a second recording), its receive side is not; receiver scenarios include a handler that closed the body (discarded, heavily padded DATA must be refunded at once); D16 (over-returned connection credit after a client RST mid-body) is reported as KNOWN-FINDING."),
     'C08': ("Rewrite.tla (end-to-end headers kept, hop-by-hop removed, Host rule, request-target identity) and Relay.tla (FIFO relay with free re-framing, conservation + liveness) "
             "checked by TLC; Rewrite scenarios replayed through the real stack; real end-to-end runs with keyed body bytes recorded at both ends and validated by TLC (Trace_Relay.tla)",
             "Header/URL/Host rules are decided for all scenarios in the bound and replayed one by one; for bodies every piece received by the backend or the client must be the next "
